@@ -2,6 +2,7 @@
 from __future__ import annotations
 
 import ast
+import re
 from typing import Dict, List, Optional, Tuple
 
 from .. import algebra as A
@@ -371,7 +372,23 @@ def _shape_rules(prog: Program, rep, td, ds) -> None:
         iname = n0.target.id if isinstance(n0, ast.NamedExpr) else n0.targets[0].id
     want_args = {'at_range': f'self.trajectory[{iname}]', 'begin': f'{roles.get("begin")}({iname})',
                  'end': f'{roles.get("end")}({iname})'}
-    bad = {k: norm(args[k]) for k in want_args if k not in args or norm(args[k]) != want_args[k]}
+    # names that are plain copies of the index found (an inlined helper hands it over through a temporary)
+    alias = {iname} if iname else set()
+    grew = True
+    while grew:
+        grew = False
+        for a_ in ast.walk(ds.node):
+            if isinstance(a_, ast.Assign) and len(a_.targets) == 1 and isinstance(a_.targets[0], ast.Name) \
+                    and isinstance(a_.value, ast.Name) and a_.value.id in alias and a_.targets[0].id not in alias:
+                alias.add(a_.targets[0].id)
+                grew = True
+
+    def canon(e) -> str:
+        t = norm(e)
+        for nm in sorted(alias - {iname}, key=len, reverse=True):
+            t = re.sub(rf'\b{re.escape(nm)}\b', iname, t)
+        return t
+    bad = {k: norm(args[k]) for k in want_args if k not in args or canon(args[k]) != want_args[k]}
     if bad:
         rep.fail('C16.R2', td.path, rets[0].lineno, ds.qualname, 'roles',
                  f'DangerSpace is built with {bad}, expected {want_args}')
